@@ -495,4 +495,22 @@ async def mutate_after_call(mpc, ctx):
     await mpc.shutdown()
 
 
+@program('survivors', ms=(3, 4), expect=None)
+async def survivors(mpc, ctx):
+    """Only party 1 provides input; the rest is PRSS / public randomness: parties whose predecessors are alive can
+    finish these outputs even when party 0 is gone (used by the crash enumeration)."""
+    await mpc.start()
+    secint = mpc.SecInt(32)      # large field: is_zero_public opens a single blinded product (one round)
+    x = mpc.input(secint(7), senders=1)
+    y = mpc.input(secint(7), senders=1)
+    bits = mpc.random_bits(secint, 2)
+    futs = [('x', mpc.output(x)), ('eq', mpc.eq_public(x, y)), ('ne', mpc.is_zero_public(x - y + 1)),
+            ('bits', mpc.output(bits)), ('xb', mpc.output(x * 3 + bits[0] - bits[0])), ('lt', mpc.output(x < y + 1))]
+    for tag, f in futs:       # every result is logged when it completes: one blocked result does not hide the others
+        f.add_done_callback(lambda fut, tag=tag: ctx.out_unordered(tag, fut.result()))
+    for tag, f in futs:
+        await f
+    await mpc.shutdown()
+
+
 MICRO = ('mod_race', 'reverse_await', 'mul_cmp')
